@@ -41,10 +41,13 @@ func msgOffset(msg string) int {
 	return n
 }
 
+// The message formats of the pinned tree are `unknown license '<lex>' at offset <n>`, `expected id at offset <n>` and
+// `unexpected '<c>' at offset <n>`. The patterns tolerate rewording (other quotes, "position"/"index", extra text around),
+// so that a change of wording alone is not reported: what is judged is the cited offset and lexeme.
 var (
-	reUnknown    = regexp.MustCompile(`^unknown license '(.*)' at offset (\d+)$`)
-	reExpectedID = regexp.MustCompile(`^expected id at offset (\d+)$`)
-	reUnexpected = regexp.MustCompile(`(?s)^unexpected '(.*)' at offset (\d+)$`)
+	reUnknown    = regexp.MustCompile("(?is)^.*?(?:unknown|unrecognized|unrecognised|invalid)\\s+(?:license|licence|identifier|id)\\b[^'\"`]*['\"`](.*)['\"`].*?(?:offset|position|index|pos)\\s*:?\\s*(\\d+).*$")
+	reExpectedID = regexp.MustCompile("(?is)^.*?(?:expected|missing)\\s+(?:an?\\s+)?(?:id|identifier)\\b.*?(?:offset|position|index|pos)\\s*:?\\s*(\\d+).*$")
+	reUnexpected = regexp.MustCompile("(?is)^.*?unexpected\\s+(?:character\\s+)?['\"`](.*)['\"`].*?(?:offset|position|index|pos)\\s*:?\\s*(\\d+).*$")
 )
 
 func isIDByte(b byte) bool {
